@@ -49,8 +49,11 @@ class JinjaWalker:
         self.more_than_one = more_than_one  # python callable semantic read from ford.output
         self.sites = []  # dict(template, kind, target, conds, lineno)
         self.set_names = set()
+        self.env = {}  # names bound by an enclosing {% with name = expr %}: substituted by their defining expression
 
     def length(self, e):
+        if isinstance(e, nodes.Name) and e.name in self.env:
+            return self.length(self.env[e.name])
         if isinstance(e, nodes.Getattr) and isinstance(e.node, nodes.Name) and e.node.name == "project":
             return self.sh.size(e.attr)
         if isinstance(e, nodes.Add):
@@ -63,6 +66,12 @@ class JinjaWalker:
 
     def truth(self, e):
         if isinstance(e, nodes.Name):
+            if e.name in self.env:
+                v = self.env[e.name]
+                try:
+                    return self.length(v) > 0  # a size / a list: true iff non-zero / non-empty
+                except NotImplementedError:
+                    return self.truth(v)
             if e.name in self.set_names:
                 return self.sh.unknown()
             return self.sh.flag(e.name)
@@ -123,6 +132,13 @@ class JinjaWalker:
             elif isinstance(n, nodes.Assign):
                 for t in n.target.find_all(nodes.Name) if not isinstance(n.target, nodes.Name) else [n.target]:
                     self.set_names.add(t.name)
+            elif isinstance(n, nodes.With):
+                saved = dict(self.env)
+                for t, v in zip(n.targets, n.values):
+                    if isinstance(t, nodes.Name):
+                        self.env[t.name] = v
+                self.walk(n.body, conds, tname)
+                self.env = saved
             elif isinstance(n, nodes.For):
                 try:
                     c = self.length(n.iter) > 0
